@@ -186,8 +186,8 @@ theorem timed_out_call_is_invisible (st : State) (w : World) (nd : Nat) (c : Cal
 /-- `read_once` on a buffer that already holds a complete message is a no-op (ANY state, ANY stream, ANY
     events during the call): it returns `Ok(())`; buffer, reservation and `fds_in` are unchanged; nothing
     is taken from the socket - the unread stream with the descriptors riding on it is untouched, the only
-    change of the world is what the peer makes arrive during the call (none: the world is unchanged);
-    the rest of the history proceeds as if the call had not been made. -/
+    change of the world is what the peer makes arrive during the call (if nothing arrives the world is
+    unchanged); the rest of the history proceeds as if the call had not been made. -/
 theorem read_once_on_complete_buffer_is_noop (st : State) (w : World) (evs : List Ev)
     (h : check st = .whole) :
     step .readOnce st w evs = (.readOk, st, w.arrive (arrivals evs)) ∧
@@ -200,6 +200,34 @@ theorem read_once_on_complete_buffer_is_noop (st : State) (w : World) (evs : Lis
   · intro h0; rw [hs, h0, arrive_zero]
   · intro acts
     simp only [run, hs]
+
+/-- The early return cannot make `read_whole_message` spin: whenever `buffer_contains_whole_message()` is
+    false the request bound exceeds what is buffered (ANY state), so every `refill_buffer` of the loop does a
+    real `recvmsg` (data or timeout) - the early return is taken only by `read_once` on a complete buffer. -/
+theorem read_whole_message_always_reads (st : State) (w : World) (nd k : Nat) (h : check st = .need nd) :
+    st.buf.length < nd ∧ bytesNeeded st.buf = .bytes nd ∧
+    0 < (reserve st nd).cap - st.buf.length ∧ refill st w nd k ≠ (.readOk, st, w) := by
+  have hlt := check_need_lt h
+  have hfull : ¬ nd ≤ st.buf.length := by omega
+  refine ⟨hlt, check_need_bytes h, refill_request_pos st nd hfull, ?_⟩
+  intro he
+  by_cases hk : k = 0
+  · subst hk; rw [refill_k0 hlt] at he; simp at he
+  · rw [refill_read hfull] at he
+    cases hr : recvmsg w ((reserve st nd).cap - st.buf.length) k with
+    | mk ans w1 =>
+      rw [hr] at he
+      cases ans with
+      | eagain => simp at he
+      | data bs fds =>
+        have hne := recvmsg_data_ne_nil _ _ _ _ _ _ (refill_request_pos st nd hfull) hr
+        cases bs with
+        | nil => exact absurd rfl hne
+        | cons b bs =>
+          simp only [List.isEmpty_cons, Bool.false_eq_true, if_false, Prod.mk.injEq, true_and] at he
+          have := congrArg (fun s => s.buf.length) he.1
+          simp only [List.length_append, List.length_cons] at this
+          omega
 
 /-- Chunking is irrelevant: a history that has consumed the whole stream (nothing buffered, nothing unread)
     has returned exactly the frames - whatever the chunking, the short reads, the timeouts, the calls used. -/
@@ -335,6 +363,7 @@ end Rustbus.Recv
 #print axioms Rustbus.Recv.timeout_is_noop
 #print axioms Rustbus.Recv.timed_out_call_is_invisible
 #print axioms Rustbus.Recv.read_once_on_complete_buffer_is_noop
+#print axioms Rustbus.Recv.read_whole_message_always_reads
 #print axioms Rustbus.Recv.complete_history_returns_all
 #print axioms Rustbus.Recv.chunking_irrelevant
 #print axioms Rustbus.Recv.one_byte_at_a_time
